@@ -128,15 +128,27 @@ def run(repo, rep, tier):
         f = call.func
         if isinstance(f, ast.Attribute) and isinstance(f.value, ast.Name) and f.value.id in ('cls', 'Utils', 'self') and repo.has_func('utils', 'Utils.' + f.attr):
             return repo.func('utils', 'Utils.' + f.attr)
+        if isinstance(f, ast.Name) and repo.has_func('utils', f.id):
+            return repo.func('utils', f.id)           # a module-level helper of utils (a named predicate instead of a lambda)
         return None
     ipa = repo.func('utils', 'Utils.is_print_ascii')
     tpa = repo.func('utils', 'Utils.to_print_ascii')
     rep.saw(ipa), rep.saw(tpa)
+    uconsts = {}
+    for st_ in repo.cls('utils', 'Utils').body:
+        if isinstance(st_, ast.Assign) and len(st_.targets) == 1 and isinstance(st_.targets[0], ast.Name):
+            try:
+                v_ = _I16().value(st_.value, {})
+            except _U16:
+                continue
+            for pre_ in ('cls.', 'Utils.', 'self.'):
+                uconsts[pre_ + st_.targets[0].id] = v_
     samples = ['SSH-2.0-x', '', ' ~', 'a\tb', 'a\x1fb', 'a\x7fb', 'caf\xe9', '\x00', 'tab\there \u20ac', '}~\x7f\x80']
     bads = []
     for smp in samples:
         for f, oracle in ((ipa, _BP.printable), (tpa, _BP.sanitised)):
-            env = {a.arg: None for a in f.args.args}
+            env = dict(uconsts)
+            env.update({a.arg: None for a in f.args.args})
             nd = len(f.args.defaults)
             for a_, d_ in zip(f.args.args[len(f.args.args) - nd:], f.args.defaults):
                 env[a_.arg] = ast.literal_eval(d_)
@@ -217,7 +229,11 @@ def run(repo, rep, tier):
         while inner is not None and not isinstance(inner, ast.While):
             inner = inner._parent
         pa = [(unparse(t), pp) for t, pp, k in path_condition(apps[0].stmt, stop=inner) if k in ('if', 'guard')]
-        rep.check('separation', 'header append is guarded by "did not parse" and "not empty"', ('self.__banner is not None', False) in pa and ('len(line.strip()) == 0', False) in pa, apps[0].stmt, 'header append guards: %s' % pa)
+        from sa.logic import implied_atoms as _ia16
+        atoms16 = {(unparse(t), pp) for t, pp in _ia16([x for x in path_condition(apps[0].stmt, stop=inner) if x[2] in ('if', 'guard')])}
+        not_banner = bool(atoms16 & {('self.__banner is not None', False), ('self.__banner is None', True)})
+        not_empty = bool(atoms16 & {('len(line.strip()) == 0', False), ('len(line.strip()) > 0', True), ('line.strip()', True), ("line.strip() == ''", False), ("line.strip() != ''", True)})
+        rep.check('separation', 'header append is guarded by "did not parse" and "not empty"', not_banner and not_empty, apps[0].stmt, 'header append guards: %s' % pa)
     # a line is handed to the banner parser only when it is complete: BytesIO.readline() also returns an unterminated tail, and a banner that reaches
     # the tool in two TCP segments would be parsed as its first half.  The read_line() call must lie behind a guard that looks for the line terminator
     # in the unread bytes (directly, or through a helper whose body does), with the end of the stream as the only way around it.
@@ -232,7 +248,7 @@ def run(repo, rep, tier):
                             return True
         return False
     for rl_call in [n for n in walk_no_nested(gb) if isinstance(n, ast.Call) and unparse(n.func) == 'self.read_line']:
-        guards = [(t, pol) for t, pol, k in path_condition(rl_call) if k in ('if', 'guard') and _mentions_newline(t)]
+        guards = [(t, pol) for t, pol, k in path_condition(rl_call) if k in ('if', 'guard', 'while') and _mentions_newline(t)]      # a terminator test in the condition of the enclosing loop guards the call just as well
         rep.check('separation', 'only complete lines are handed to the banner parser', bool(guards), rl_call,
                   'get_banner() parses whatever read_line() returns after each recv(): a banner (or header) line that arrives in two TCP segments is parsed as its first half (e.g. "SSH-2.0-Open" | "SSH_8.9") and the remainder is taken for packet data',
                   stmt='read_line guarded by a line-terminator test')
